@@ -168,6 +168,11 @@ class C07(core.Check):
                   b'100000000000000000000000000000000000000', b'1000000000000000000000000000000000000000!'):
             c.append({'k': 's', 'w': list(w)})
             c.append({'k': 'ss', 'w': list(w)})
+        for t in (4, 8):
+            hb = 1 << (M.MBITS[t] - 1)
+            for m in (256 * hb, 320 * hb - 1, 320 * hb, 320 * hb + 1, 512 * hb - 1, 512 * hb - 128, 409 * hb + 3):
+                for op, e in ((0, 152), (0, 1), (0, -7), (1, 0), (1, 200), (2, 150)):
+                    c.append({'k': 'st', 't': t, 'op': op, 'e': e, 'm': m, 'n': 0})
         c.append({'k': 'i', 't': 4, 'lo': 0})
         c.append({'k': 'i', 't': 8, 'lo': 9999990})
         c.append({'k': 'i', 't': 4, 'lo': 9999990})
@@ -196,6 +201,9 @@ class C07(core.Check):
             elif r < 0.50:
                 t = rng.choice([4, 8])
                 add({'k': 'i', 't': t, 'lo': self.rand_int_block(rng, t)}, 'i:%d' % t)
+            elif r < 0.55:
+                c = self.rand_step(rng)
+                add(c, 'st:%d:%s' % (c['t'], ('div', 'mul', 'carry')[c['op']]))
             elif r < 0.93:
                 cls, w = self.rand_text(rng)
                 kind = 's' if rng.random() < 0.85 else rng.choice(['ss', 'ev'])
@@ -394,6 +402,8 @@ class C07(core.Check):
             if k == 'ev':
                 with M.hard_errors():
                     return M.run(lambda: values.val_([M.make_value(3, case['w'])]))
+            if k == 'st':
+                return self.impl_step(case)
             if k == 'i':
                 out = []
                 for n in range(case['lo'], case['lo'] + SWEEP):
@@ -401,6 +411,18 @@ class C07(core.Check):
                     out += self.impl_roundtrip(cls().from_int(n))
                 return out
         raise ValueError(k)
+
+    def impl_step(self, case):
+        """one scaling step of the real Float class on a denormalised triple (exp, man, neg)"""
+        vals = M.values_obj()
+        obj = vals.new_single() if case['t'] == 4 else vals.new_double()
+        den = (case['e'], case['m'], bool(case['n']))
+        try:
+            fn = (obj._div10_den, obj._mul10_den, obj._apply_carry_den)[case['op']]
+            e, m, n = fn(den)
+            return [0, int(e), int(m), int(bool(n))]
+        except Exception as ex:     # noqa
+            return common.canon_exc(ex)
 
     # end-to-end: the statements of the property text on a Session of their own
     _e2e = None
@@ -443,6 +465,9 @@ class C07(core.Check):
             return '(enc_vres (from_repr true %s true))' % core.zl(case['w'])
         if k == 'i':
             return '(c07_int_sweep %s (%d) %d)' % (coq_fmt(case['t']), case['lo'], SWEEP)
+        if k == 'st':
+            return '(c07_step %s %d (%d) %d %s)' % (coq_fmt(case['t']), case['op'], case['e'], case['m'],
+                                                     'true' if case['n'] else 'false')
         raise ValueError(k)
 
     # ---------------------------------------------------------------- oracle
@@ -452,7 +477,7 @@ class C07(core.Check):
             return case['b'][-1] != 0
         if k in ('p', 'r'):
             return out[:1] == [0] and (case['t'] == 2 or case['b'][-1] != 0)
-        if k == 'i':
+        if k in ('i', 'st'):
             return True
         return out[:1] == [0] and any(48 < c <= 57 for c in case['w'])
 
@@ -607,7 +632,88 @@ class C07(core.Check):
             return self.check_read(case['w'], rd, out)
         if k == 'e':
             return self.oracle_e2e(case, out)
+        if k == 'st':
+            return self.oracle_step(case, out)
         return 'unknown case kind'
+
+    @staticmethod
+    def oracle_step(case, out):
+        """exact reading of the step bounds the accuracy clauses rest on (theorems C07_div10_step_partial,
+        C07_mul10_step_partial, C07_carry_step_partial): value of a den = man * 2^exp"""
+        hb = 1 << (M.MBITS[case['t']] - 1)
+        e, m, op = case['e'], case['m'], case['op']
+        name = ('_div10_den', '_mul10_den', '_apply_carry_den')[op]
+        if out[:1] != [0]:
+            return '%s raised %r on a normalised den' % (name, out)
+        e2, m2, n2 = out[1], out[2], out[3]
+        if n2 != case['n'] or not (256 * hb <= m2 < 512 * hb):
+            return '%s: result (%d, %d) is not normalised / sign changed' % (name, e2, m2)
+        x, y = Fraction(m) * Fraction(2) ** e, Fraction(m2) * Fraction(2) ** e2
+        u = Fraction(2) ** e2
+        if op == 0:
+            ok = e - 4 <= e2 <= e - 3 and x / 10 - 2 * u <= y < x / 10
+            if ok and e2 == e - 3:
+                ok = x / 10 - u <= y
+            return None if ok else ('_div10_den(%d, %d): result (%d, %d) is not within 1 (2 after renormalising) '
+                                    'guard-bit units below the exact tenth' % (e, m, e2, m2))
+        if op == 1:
+            ok = e + 3 <= e2 <= e + 4 and abs(y - 10 * x) < u
+            return None if ok else '_mul10_den(%d, %d): result (%d, %d) is a guard-bit unit or more off' % (e, m, e2, m2)
+        ok = m2 % 256 == 0 and e <= e2 <= e + 1 and abs(y - x) <= 128 * Fraction(2) ** e
+        return None if ok else '_apply_carry_den(%d, %d): result (%d, %d) is not the rounded mantissa' % (e, m, e2, m2)
+
+    # ---------------------------------------------------------------- extra search
+    def rand_step(self, rng):
+        t = rng.choice([4, 8])
+        hb = 1 << (M.MBITS[t] - 1)
+        k = rng.random()
+        if k < 0.5:
+            m = rng.randrange(256 * hb, 512 * hb)
+        elif k < 0.8:
+            base = rng.choice([256 * hb, 320 * hb, 409 * hb, 512 * hb, 2559999744 if t == 4 else 10239999999999999744,
+                               4095999744 if t == 4 else 16383999999999999744])
+            m = min(max(base + rng.randrange(-600, 600), 256 * hb), 512 * hb - 1)
+        else:
+            m = (rng.randrange(hb, 2 * hb) << 8) | rng.choice([0, 0, 127, 128, 129, 255])
+        op = rng.choice([0, 0, 0, 1, 1, 2])
+        e = rng.randrange(0, 256) if op else rng.randrange(-60, 256)
+        return {'k': 'st', 't': t, 'op': op, 'e': e, 'm': m, 'n': rng.randrange(2)}
+
+    def worst_case(self, rng):
+        """inputs with the longest scaling loops: exponent extremes for printing, extreme decimal exponents with
+        full-length mantissas for reading"""
+        r = rng.random()
+        if r < 0.5:
+            t = rng.choice([4, 8])
+            b = [rng.randrange(256) for _ in range(t - 1)] + [rng.choice([1, 2, 3, 4, 5, 6, 250, 251, 252, 253, 254, 255])]
+            return {'k': 'p', 't': t, 'b': b}
+        nd = rng.choice([7, 16, 16, 15, 6])
+        ds = str(rng.randrange(10 ** (nd - 1), 10 ** nd))
+        if rng.random() < 0.7:
+            e = -rng.randrange(30, 39 + nd)
+        else:
+            e = rng.randrange(38 - nd, 39)
+        s = '%s%s%d' % (ds, 'E' if nd <= 7 else 'D', e)
+        return {'k': 's', 'w': list(s.encode())}
+
+    def extra_search(self, budget_s):
+        """when the proofs / tie are broken and the regular cases did not fail: first the property oracle on
+        worst-case inputs (long loops), then the proved step bounds on the real scaling routines"""
+        import time
+        t0 = time.time()
+        rng = self.rng
+        n = 0
+        while time.time() - t0 < budget_s:
+            n += 1
+            case = self.worst_case(rng) if (time.time() - t0 < budget_s / 2 and n % 2) else self.rand_step(rng)
+            try:
+                out = self.impl(case)
+                why = self.oracle(case, out)
+            except Exception as ex:     # noqa
+                continue
+            if why:
+                yield case, out, why
+                return
 
     def oracle_e2e(self, case, out):
         x = M.value_of(case['t'], case['b'])
